@@ -16,7 +16,7 @@ PROPERTY = {
         'recording targets stand for arbitrary callables; eval code reports through a recording eval symbol',
         'metadata codec stub for !unsafe markers on already tagged nodes (native replays use the real pickle codec)',
     ],
-    'bounds': {'scenarios': '16 merge histories of 1..3 stages: call/bind/eval/f-string/import defined, argument override by mapping / list, placeholder filled later, target override by string / by another function node, plain mapping replaced by a call, data referenced by !xref / by evaluated code supplied before or after, overridden data',
+    'bounds': {'scenarios': '21 merge histories (evaluated through Config and through the low-level EvalContext route) of 1..3 stages: call/bind/eval/f-string/import defined, argument override by mapping / list, placeholder filled later, target override by string / by another function node, plain mapping replaced by a call, data referenced by !xref / by evaluated code supplied before or after, overridden data',
                'flags': 'safe flag of each source symbolic; one !unsafe marker (symbolic presence) on the node / its wrapper / an argument / the referenced data of a selected stage'},
     'outside': ['!rec nodes, unsafe includes (C06 covers include safety inheritance)', 'more than 3 stages'],
     'per_split_timeout': {'quick': 600, 'thorough': 1800},
@@ -76,13 +76,28 @@ def scenario(k, marks):
         return ["x: !import 'engine.targets.SIGNATURE_TARGETS'" if not m[0] else "x: !unsafe {y: !import 'engine.targets.SIGNATURE_TARGETS'}", 'z: ' + plain(1, '1')], [0], 'import'
     if k == 15:
         return ['d: ' + plain(0, '7'), 'w: ' + m[1] + "\n  x: f'{rec(d)}'" , 'd: ' + plain(2, '9')], [1, 2], 'ident'
+    if k == 16:
+        # the !unsafe tag directly on an f-string scalar (literal tag: the marker of this scenario is always present)
+        return ["x: !unsafe f'{rec(1)}'"], ['marked'], 'ident'
+    if k == 17:
+        # a container evaluated EARLIER (cached) that holds an unsafe child, passed to a call through !xref
+        return ['d: {v: ' + plain(0, '7') + ', w: 1}', 'x: ' + dyn(1, 'call', F, 'a: !xref d')], [0, 1], 'f'
+    if k == 18:
+        # an intermediate reference evaluated earlier whose target comes from another stage
+        return ['d: ' + plain(0, '7'), 'r: ' + (m[1] and ('!xref:' + m[1][len('!metadata:'):]) or '!xref') + ' d', 'x: ' + dyn(2, 'call', F, 'a: !xref r')], [0, 1, 2], 'f'
+    if k == 19:
+        # explicit safe=True on a node below an !unsafe node does not make its content safe again
+        return ["w: !unsafe {x: !metadata{{'safe': True}} {y: !call:%s {a: 1}}}" % F], ['marked'], 'f'
+    if k == 20:
+        # a later stage marks the enclosing mapping !unsafe without touching the call: the call is then below an !unsafe node
+        return ['w: ' + plain(0, '{x: !call:%s {a: 1}}' % F), 'w: ' + plain(1, '{y: 1}')], [0, 'mark1'], 'f'
     raise ValueError(k)
 
 
-NSCEN = 16
+NSCEN = 21
 
 
-def c07_history(split, s0, s1, s2, u, mark):
+def c07_history(split, s0, s1, s2, u, mark, low):
     reset()
     k = split['scenario']
     safes = [s0, s1, s2]
@@ -102,7 +117,10 @@ def c07_history(split, s0, s1, s2, u, mark):
         b = Builder()
         for i, d in enumerate(docs):
             b.add_source(d, raw_yaml=True, safe=safes[i])
-        cfg = Config(b.build(), eval_ctx=ctx)
+        if low:
+            cfg = ctx.evaluate(b.build())          # the documented low-level route (no deep copy)
+        else:
+            cfg = Config(b.build(), eval_ctx=ctx)
         val = cfg.get('x', cfg.get('w'))
         if observer == 'bind':
             ran = True        # the target was imported and bound on behalf of the node
@@ -132,10 +150,16 @@ def c07_history(split, s0, s1, s2, u, mark):
     note(log=repr(targets.LOG), ran=ran)
     all_safe = True
     for i in contributors:
-        if not safes[i]:
-            all_safe = False
-        if u and mark == i:
-            all_safe = False
+        if i == 'marked':
+            all_safe = False          # the scenario text itself carries an !unsafe tag
+        elif i == 'mark1':
+            if u and mark == 1:
+                all_safe = False      # only the explicit marker of stage 1 taints, not its source flag
+        else:
+            if not safes[i]:
+                all_safe = False
+            if u and mark == i:
+                all_safe = False
     if ran:
         wit('ran')
         if not all_safe:
@@ -147,7 +171,7 @@ def c07_history(split, s0, s1, s2, u, mark):
         return True
     wit('refused')
     # fail-safe refusals are fine, but a history in which every stage is safe and nothing is marked must run
-    every_safe = all(safes[i] for i in range(n)) and not u
+    every_safe = all(safes[i] for i in range(n)) and not u and 'marked' not in contributors
     if every_safe:
         return False
     return True
@@ -201,7 +225,7 @@ def _splits(tier):
 
 HARNESSES = {
     'c07_history': Harness('c07_history', c07_history,
-                           [('s0', 'bool'), ('s1', 'bool'), ('s2', 'bool'), ('u', 'bool'), ('mark', 'int', 0, 2)], _splits,
+                           [('s0', 'bool'), ('s1', 'bool'), ('s2', 'bool'), ('u', 'bool'), ('mark', 'int', 0, 2), ('low', 'bool')], _splits,
                            pre='u or mark == 0',
                            doc='merge histories of dynamic nodes; source safety of every stage and one !unsafe marker symbolic; one-sided taint oracle',
                            witnesses=('ran', 'refused')),
